@@ -29,6 +29,53 @@ def _eval(txt):
     return int(eval(t, {"__builtins__": {}}, {}))
 
 
+def _cexpr(txt, env=None):
+    """a C integer constant expression over non negative values (+ - * / % << >> & | and parentheses; `/` truncates)"""
+    t = re.sub(r"(?<=[0-9a-fA-F])[uUlL]+\b", "", txt).strip()
+    if not t or not re.fullmatch(r"[0-9a-fA-FxX\s*+\-()/%<>&|]+", t):
+        raise ValueError("cannot evaluate constant expression: %s" % txt)
+    return int(eval(t.replace("/", "//"), {"__builtins__": {}}, dict(env or {})))
+
+
+def _sca_table(s):
+    """What sleep_clock_accuracy() RETURNS for the SCA fields 0..7 - not how the table is spelled: the initialiser
+    expressions are evaluated with C semantics (integer division, width of the element type) and put through the
+    arithmetic of the return statement. A function that cannot be read this way yields [] (the model then disagrees
+    with the implementation and the pinned Example in Props/Properties_C22.v fails) - never an exception: the
+    specification monitor, which has the Core table as a literal, must still get to judge the implementation."""
+    try:
+        m = re.search(r"::sleep_clock_accuracy\s*\([^)]*\)\s*const\s*\{(.*?)\n    \}", s, re.S)
+        body = m.group(1)
+        m = re.search(r"([\w:]+)\s+(\w+)\s*\[\s*\d*\s*\]\s*=\s*\{([^}]*)\}", body)
+        typ, name, init = m.group(1), m.group(2), m.group(3)
+        w = re.search(r"int(\d+)_t", typ)
+        mask = (1 << int(w.group(1))) - 1 if w else 0xffffffff
+        stored = [_cexpr(x) & mask for x in init.split(",") if x.strip()]
+        ret = re.search(r"return\s+(.*?);", body, re.S).group(1)
+        # replace `name[ <index expression> ]` (brackets nest once: received_body[ 33 ]) by X
+        i = ret.index(name)
+        j, depth = ret.index("[", i), 0
+        for k in range(j, len(ret)):
+            depth += ret[k] == "["
+            depth -= ret[k] == "]"
+            if depth == 0:
+                break
+        idx = ret[j + 1:k]
+        if not re.search(r">>\s*5", idx) or not re.search(r"&\s*(0x7|7)\b", idx):
+            return []
+        expr = ret[:i] + " X " + ret[k + 1:]
+        expr = re.sub(r"static_cast\s*<[^>]*>", "", expr)
+        if len(stored) != 8 or not re.fullmatch(r"[0-9a-fA-FxXuUlL\s*+\-()/%<>&|]+", expr):
+            return []
+        out = []
+        for v in stored:
+            e = re.sub(r"\bX\b", str(v), expr)
+            out.append(_cexpr(e) & 0xffffffff)
+        return out
+    except Exception:
+        return []
+
+
 def extract(repo):
     s = strip_comments(read(repo, LL))
     c = _consts(s)
@@ -57,11 +104,7 @@ def extract(repo):
         k, v = item.split("=")
         r.append(("feature_" + k.strip(), "N", str(cint(v))))
     # sleep clock accuracy table
-    m = re.search(r"inaccuracy_ppm\[\s*8\s*\]\s*=\s*\{([^}]*)\}", s)
-    if not m:
-        raise ValueError("inaccuracy_ppm table not found")
-    tbl = [cint(x) for x in m.group(1).split(",")]
-    r.append(("inaccuracy_ppm", "list N", "[" + "; ".join(map(str, tbl)) + "]"))
+    r.append(("inaccuracy_ppm", "list N", "[" + "; ".join(map(str, _sca_table(s))) + "]"))
     # (opcode, size) acceptance comparisons, in source order
     acc = re.findall(r"opcode\s*==\s*(?:LinkLayer::|LL::)?(LL_\w+)\s*&&\s*size\s*==\s*(\d+)", s)
     if len(acc) < 14:
